@@ -8,7 +8,7 @@ from props import rt
 PID = "C08"
 LEVEL = "proof"
 MODULE = "Sigc.Props.C08"
-REQUIRED = []
+REQUIRED = ["Sigc.C08.consistent", "Sigc.C08.consistent_quiescent", "Sigc.C08.propagates", "Sigc.C08.runBody_stops_at_exc", "Sigc.C08.emitLoop_stops_at_exc"]
 TRUSTED = rt.TRUSTED_RT
 ASSUMPTIONS = rt.ASSUMPTIONS_RT + []
 PARTIAL = []
